@@ -1,0 +1,24 @@
+//go:build verif
+
+package jsonexpr
+
+// Contracts for the deductive verifier in /verif (govc). Comment-only: no code is added.
+
+//@ scope eval.go
+
+// Frame only (assumed, the path-matching walk is not verified): Extract reads the decoder and
+// reports matches through the callback; it writes nothing else of the caller's state.
+//@ func Extract
+//@   trusted
+//@   calls extract
+//@   modifies nothing
+
+//@ scope jsonexpr.go
+
+// Frames only (assumed): the path parser and selector constructors read their arguments.
+//@ func Parse
+//@   trusted
+//@   modifies nothing
+//@ func KeySel
+//@   trusted
+//@   modifies nothing
